@@ -69,3 +69,14 @@ func (k *KnownFindings) OpenIDs(prop string) []string {
 
 	return out
 }
+
+// Describe returns the one-line description of a finding.
+func (k *KnownFindings) Describe(id string) string {
+	for _, f := range k.Findings {
+		if f.ID == id {
+			return f.Description
+		}
+	}
+
+	return "(not listed)"
+}
